@@ -224,9 +224,6 @@ func c07Program(c *checker, r *rng.R, p *Prog, how, known string, extra []Orders
 			}
 		}
 	}
-	if known == "D17" {
-		c.stale["D17"] = true
-	}
 	known = strings.TrimSuffix(known, "!")
 	first := runs[0].impl
 	outcome := "ok"
@@ -375,7 +372,7 @@ func runC07(c *checker, r *rng.R) {
 	}
 	for i := 0; i < n; i++ {
 		cfg := genCfg{maxFiles: 1 + r.Intn(4), maxTypes: 1 + r.Intn(7), maxConsts: r.Intn(5), maxServices: r.Intn(3),
-			nonStrict: r.Chance(1, 4), shadows: true, subdirs: true}
+			nonStrict: r.Chance(1, 4), shadows: true, subdirs: true, selfRefs: true}
 		p, _ := program(r, cfg)
 		if i < 3 {
 			c.rep.Sample("program: " + p.Sexp())
@@ -383,7 +380,7 @@ func runC07(c *checker, r *rng.R) {
 		c07Program(c, r, p, "generated", "", nil)
 	}
 	c.flush()
-	c.rep.Rule = "multi-file programs from an abstract description (forward/backward/cross-file and transitive dotted references, typedef chains through structs, diamond/cyclic/self includes, dotted local names shadowing include-qualified names, constants and defaults generated by type); each × {sorted, reversed, random visit orders, all n! orders of the named types of every module with ≤6 types, all orders of ≤4 constants / ≤3 services / ≤3 includes} through compile.CompileWithLinkOrder, × 3 natural runs, × permutations of the definitions in the source; compared across orders (oracle), with the Lean linker run with the same order, and with the declarative spec; non-trivial = the program contains at least one reference; distinct by (program, order). Excluded by construction (probed from corpus/C07): typedef on a reference cycle (D10), enum item used at a non-enum type (D17), constant cycles (D4/D6)."
+	c.rep.Rule = "multi-file programs from an abstract description (forward/backward/cross-file and transitive dotted references, typedef chains through structs, diamond/cyclic/self includes, dotted local names shadowing include-qualified names, constants and defaults generated by type); each × {sorted, reversed, random visit orders, all n! orders of the named types of every module with ≤6 types, all orders of ≤4 constants / ≤3 services / ≤3 includes} through compile.CompileWithLinkOrder, × 3 natural runs, × permutations of the definitions in the source; compared across orders (oracle), with the Lean linker run with the same order, and with the declarative spec; non-trivial = the program contains at least one reference; distinct by (program, order). Excluded by construction (probed from corpus/C07): typedef on a reference cycle (D10), struct literal reachable from the struct's own Link (D50). The shapes of the repaired findings D17 (enum item at another type) and D4/D6 (constants defined in terms of themselves) are generated and must be rejected under every order."
 }
 
 // castOracle: the linked value of every constant and default has the shape of its declared
@@ -399,7 +396,7 @@ func castOracle(root *compile.Module) []violation {
 		switch x := v.(type) {
 		case compile.EnumItemReference:
 			if rt != compile.TypeSpec(x.Enum) {
-				out = append(out, violation{fmt.Sprintf("%s: enum item %s.%s used at type %s without a cast check", where, x.Enum.Name, x.Item.Name, t.ThriftName()), "D17"})
+				out = append(out, violation{fmt.Sprintf("%s: enum item %s.%s used at type %s without a cast check", where, x.Enum.Name, x.Item.Name, t.ThriftName()), ""})
 			}
 		case compile.ConstantInt:
 			switch rt.(type) {
